@@ -178,13 +178,20 @@ DeleteOutput(m) ==
   /\ op' = [name |-> "delete", m |-> m]
   /\ UNCHANGED <<src, mtime, ast, sym, parser, ntorn>>
 
+\* an output left behind by another version of the application: its header differs from every current header
+OldVersion(m) ==
+  /\ WithOutputs /\ out[m] # None /\ out[m].hdr # [d \in {m} |-> 0]
+  /\ out' = [out EXCEPT ![m].hdr = [d \in {m} |-> 0]]
+  /\ op' = [name |-> "oldversion", m |-> m]
+  /\ UNCHANGED <<src, mtime, ast, sym, parser, ntorn>>
+
 AnyMod == CHOOSE m \in Mods : TRUE
 Next ==
   \/ \E m \in Mods, v \in Variants, t \in 1..(IF MaxT = 0 THEN MaxOps + 1 ELSE MaxT) : Edit(m, v, t)
   \/ \E enabled \in (IF WithCache THEN BOOLEAN ELSE {FALSE}), force \in BOOLEAN : Run(enabled, force)
      \* the runner configuration (C06) isolates the header mechanism: caching is switched off there
   \/ ClearCache
-  \/ \E m \in Mods : Truncate("ast", m) \/ Truncate("sym", m) \/ DeleteOutput(m)
+  \/ \E m \in Mods : Truncate("ast", m) \/ Truncate("sym", m) \/ DeleteOutput(m) \/ OldVersion(m)
   \/ Truncate("parser", AnyMod)
 
 Spec == Init /\ [][Next]_vars
@@ -199,6 +206,7 @@ Descs ==
   \cup {[name |-> "truncate", kind |-> k, m |-> m] : k \in {"ast", "sym"}, m \in Mods}
   \cup {[name |-> "truncate", kind |-> "parser", m |-> AnyMod]}
   \cup {[name |-> "delete", m |-> m] : m \in Mods}
+  \cup {[name |-> "oldversion", m |-> m] : m \in Mods}
 Guard(d) ==
   CASE d.name = "edit" -> d.v # src[d.m] /\ (IF MaxT = 0 THEN d.t = mtime[d.m] + 1 ELSE d.t # mtime[d.m])
     [] d.name = "run" -> WithOutputs \/ d.force
@@ -206,12 +214,14 @@ Guard(d) ==
     [] d.name = "truncate" -> WithCache /\ ntorn < MaxTorn /\
          (CASE d.kind = "ast" -> ast[d.m] # None /\ ~ast[d.m].torn [] d.kind = "sym" -> sym[d.m] # None /\ ~sym[d.m].torn [] OTHER -> parser = "ok")
     [] d.name = "delete" -> WithOutputs /\ out[d.m] # None
+    [] d.name = "oldversion" -> WithOutputs /\ out[d.m] # None /\ out[d.m].hdr # [x \in {d.m} |-> 0]
 Do(d) ==
   CASE d.name = "edit" -> Edit(d.m, d.v, d.t)
     [] d.name = "run" -> Run(d.enabled, d.force)
     [] d.name = "clear" -> ClearCache
     [] d.name = "truncate" -> Truncate(d.kind, d.m)
     [] d.name = "delete" -> DeleteOutput(d.m)
+    [] d.name = "oldversion" -> OldVersion(d.m)
 \* runs are twice as likely as any other operation (they are where the properties are observed)
 Weighted == {<<d, i>> : d \in {x \in Descs : Guard(x)}, i \in 1..2} \ {<<d, 2>> : d \in {x \in Descs : x.name # "run"}}
 RandomNext == Weighted # {} /\ Do(RandomElement(Weighted)[1])
